@@ -58,6 +58,7 @@ package tabular
 //@   ensures [no-nil] old(nonnil(ec)) ==> nonnil(ec)
 //@   ensures [list-untouched] forall k int :: {el[k]} {old(el[k])} 0 <= k && k < len(el) ==> el[k] == old(el[k])
 //@   ensures [not-adopted] ec != nil && len(el) > 0 ==> ec.errors_.arr != el.arr
+//@   ensures [arr] ec != nil ==> (ec.errors_.arr == old(ec.errors_.arr) && ec.errors_.off == old(ec.errors_.off) && ec.errors_.cap == old(ec.errors_.cap)) || fresh(ec.errors_)
 //@   loop#1 invariant -1 <= rangeindex && rangeindex < len(el) && ec != nil
 //@   loop#1 invariant len(ec.errors_) == old(len(ec.errors_)) + nn(old(heap[error]), el, rangeindex+1)
 //@   loop#1 invariant forall i int :: {ec.errors_[i]} {old(ec.errors_[i])} 0 <= i && i < old(len(ec.errors_)) ==> ec.errors_[i] == old(ec.errors_[i])
@@ -286,10 +287,10 @@ package tabular
 //@ pred opaque WFrow(r *Row) = r != nil && !r.isSeparator && r.cells != nil && r.inTable == nil && cellsOK(r) && rowOwn(r)
 
 //@ -- rowIn(t, r, i): r is the i-th (0-based) row of t (W2, W3, W4, W6 and the >= half of W5)
-//@ pred opaque rowIn(t *ATable, r *Row, i int) = r != nil && r.inTable == t && r.rowNum == i+1 && r.ErrorContainer == t.ErrorContainer && rowOwn(r) && (r.isSeparator ==> r.cells == nil) && (!r.isSeparator ==> r.cells != nil && cellsOK(r) && len(r.cells) <= t.nColumns)
+//@ pred opaque rowIn(t *ATable, r *Row, i int) = r != nil && r.inTable == t && r.rowNum == i+1 && r.ErrorContainer == t.ErrorContainer && (r.isSeparator ==> r.cells == nil) && (!r.isSeparator ==> r.cells != nil && cellsOK(r) && len(r.cells) <= t.nColumns)
 
 //@ -- hdrOK(t, h): h is a well-formed header row of t
-//@ pred opaque hdrOK(t *ATable, h *Row) = !h.isSeparator && h.cells != nil && cellsOK(h) && rowOwn(h) && len(h.cells) <= t.nColumns && h.ErrorContainer == t.ErrorContainer && h.inTable == nil
+//@ pred opaque hdrOK(t *ATable, h *Row) = !h.isSeparator && h.cells != nil && cellsOK(h) && len(h.cells) <= t.nColumns && h.ErrorContainer == t.ErrorContainer && h.inTable == nil
 
 //@ -- colsOK(t): the column records (index 0 is the defaults column) are live, distinct and belong to t (W7)
 //@ pred opaque colsOK(t *ATable) = (forall i int :: {t.columns[i]} 0 <= i && i < len(t.columns) ==> t.columns[i] != nil && t.columns[i].ofTable == t) && (forall i int, k int :: {t.columns[i], t.columns[k]} 0 <= i && i < k && k < len(t.columns) ==> t.columns[i] != t.columns[k])
@@ -412,6 +413,7 @@ package tabular
 //@   ensures [new-columns-fresh] forall i int :: {t.columns[i]} old(t.nColumns) < i && i <= t.nColumns ==> fresh(t.columns[i]) && t.columns[i].properties == nil
 //@   ensures [no-shrink] newCount <= old(t.nColumns) ==> t.columns === old(t.columns)
 //@   ensures [cols-own] old(colsOwn(t)) ==> colsOwn(t)
+//@   ensures [arr] (t.columns.arr == old(t.columns.arr) && t.columns.off == old(t.columns.off) && t.columns.cap == old(t.columns.cap)) || fresh(t.columns)
 //@   loop#1 invariant -1 <= rangeindex && rangeindex < len(extraColumns) && len(extraColumns) == newCount - old(t.nColumns) && fresh(extraColumns) && t.columns === old(t.columns) && t.nColumns == old(t.nColumns)
 //@   loop#1 invariant forall k int :: {extraColumns[k]} 0 <= k && k <= rangeindex ==> extraColumns[k] != nil && fresh(extraColumns[k]) && extraColumns[k].ofTable == t && extraColumns[k].properties == nil && chainOK(heap[valueProperty.chain], heap[valueProperty.key], heap[valueProperty.val], extraColumns[k].properties) && cbsLive(extraColumns[k].cellCallbacks) && cbsLive(extraColumns[k].columnItselfCallbacks)
 //@   loop#1 invariant old(colsOwn(t)) ==> colsOwn(t)
@@ -470,6 +472,7 @@ package tabular
 //@   ensures [earlier-errors-kept] old(ecOf(errTaker, heap[Row.ErrorContainer])) != nil ==> forall i int :: {old(ecOf(errTaker, heap[Row.ErrorContainer]).errors_[i])} 0 <= i && i < old(len(ecOf(errTaker, heap[Row.ErrorContainer]).errors_)) ==> ecOf(errTaker, heap[Row.ErrorContainer]).errors_[i] == old(ecOf(errTaker, heap[Row.ErrorContainer]).errors_[i])
 //@   ensures [no-nil] old(nonnil(ecOf(errTaker, heap[Row.ErrorContainer]))) ==> nonnil(ecOf(errTaker, heap[Row.ErrorContainer]))
 //@   ensures [log-prefix] forall j int :: {cbErrLog[j]} j < old(cbErrN) ==> cbErrLog[j] === old(cbErrLog[j])
+//@   ensures [arr] old(ecOf(errTaker, heap[Row.ErrorContainer])) != nil ==> (ecOf(errTaker, heap[Row.ErrorContainer]).errors_.arr == old(ecOf(errTaker, heap[Row.ErrorContainer]).errors_.arr) && ecOf(errTaker, heap[Row.ErrorContainer]).errors_.off == old(ecOf(errTaker, heap[Row.ErrorContainer]).errors_.off) && ecOf(errTaker, heap[Row.ErrorContainer]).errors_.cap == old(ecOf(errTaker, heap[Row.ErrorContainer]).errors_.cap)) || fresh(ecOf(errTaker, heap[Row.ErrorContainer]).errors_)
 //@   loop#1 invariant -1 <= rangeindex && rangeindex < len(cbList)
 //@   loop#1 invariant forall i int :: {cbList[i]} 0 <= i && i < len(cbList) ==> cbList[i] != nil
 //@   loop#1 invariant ownerOK(owner)
@@ -501,3 +504,68 @@ package tabular
 //@   ensures [detached-stays-wellformed] old(r.cells) != nil && r.inTable == nil ==> WFrow(r) @C02
 //@   ensures [attached-keeps-invariant] old(r.inTable) != nil ==> r.inTable == old(r.inTable) && WF(r.inTable) @C02,C09
 //@   ensures [columns-follow] old(r.inTable) != nil && old(r.cells) != nil ==> r.inTable.nColumns == max(old(r.inTable.nColumns), len(r.cells)) @C02
+
+//@ func (*ATable).AddSeparator
+//@   tags C02,C11,C09
+//@   requires WF(t) && len(t.rows) <= 1099511627774
+//@   assigns t.rows, elemscap(t.rows), new(Row)
+//@   ensures [invariant] WF(t)
+//@   ensures [one-more-row] len(t.rows) == old(len(t.rows)) + 1 && t.rows[len(t.rows)-1].isSeparator && fresh(t.rows[len(t.rows)-1]) @C02
+//@   ensures [earlier-rows-kept] forall i int :: {t.rows[i]} {old(t.rows[i])} 0 <= i && i < old(len(t.rows)) ==> t.rows[i] == old(t.rows[i]) @C02
+//@   ensures [columns-unchanged] t.nColumns == old(t.nColumns) && t.headerRow == old(t.headerRow) @C02
+//@   ensures [separator-errors-reach-table] t.rows[len(t.rows)-1].ErrorContainer == t.ErrorContainer @C11
+//@   ensures [returns-table] result == mkiface(type[*ATable], box(t))
+
+//@ lemma nn_full(h (Array Loc Iface), el Slice, n int)
+//@   requires 0 <= n
+//@   requires forall i int :: {h[elemloc(el, i)]} 0 <= i && i < n ==> h[elemloc(el, i)] != nil
+//@   ensures nn(h, el, n) == n
+//@   decreases n
+//@   unfold nn(h, el, n)
+//@   use nn_full(h, el, n-1)
+//@   tags C11
+
+//@ func (Cell).columnOfTable
+//@   tags C13,C09
+//@   requires c.inRow != nil && c.inRow.inTable != nil ==> c.inRow.inTable.nColumns >= 0 && len(c.inRow.inTable.columns) == c.inRow.inTable.nColumns + 1
+//@   assigns nothing
+//@   ensures [column-of-attached-cell] c.columnNum >= 1 && c.inRow != nil && c.inRow.inTable != nil && c.columnNum <= c.inRow.inTable.nColumns ==> result == c.inRow.inTable.columns[c.columnNum]
+//@   ensures [none-otherwise] !(c.columnNum >= 1 && c.inRow != nil && c.inRow.inTable != nil && c.columnNum <= c.inRow.inTable.nColumns) ==> result == nil
+
+//@ -- tableErrs: shorthand for the table's error list
+//@ spec terrs(t *ATable) Slice = t.ErrorContainer.errors_
+
+//@ func (*ATable).AddRow
+//@   tags C02,C11,C13,C09
+//@   requires [table] WF(t) && tblProps(t) && colsOwn(t) && len(t.rows) <= 1099511627774
+//@   requires [row] WFrow(row) && rowProps(row) && cellsOwn(row) && len(row.cells) <= 1099511627774
+//@   requires [row-cells-not-shared] (forall i int :: {t.rows[i]} 0 <= i && i < len(t.rows) ==> t.rows[i].cells.arr != row.cells.arr) && (t.headerRow != nil ==> t.headerRow.cells.arr != row.cells.arr && t.headerRow != row)
+//@   requires [row-errors-separate] row.ErrorContainer != t.ErrorContainer && (row.ErrorContainer != nil ==> len(row.ErrorContainer.errors_) == 0 || row.ErrorContainer.errors_.arr != t.ErrorContainer.errors_.arr)
+//@   assigns t.rows, elemscap(t.rows), row.inTable, row.rowNum, row.ErrorContainer, t.columns, t.nColumns, elemscap(t.columns), new(column), t.ErrorContainer.errors_, elemscap(t.ErrorContainer.errors_), row.properties, elems(row.cells).properties, new(valueProperty), ghost cbErrN, ghost cbErrLog
+//@   ensures [invariant] WF(t) @C02,C09
+//@   ensures [appended] len(t.rows) == old(len(t.rows)) + 1 && t.rows[len(t.rows)-1] == row && row.rowNum == len(t.rows) && row.inTable == t @C02
+//@   ensures [earlier-rows-kept] forall i int :: {t.rows[i]} {old(t.rows[i])} 0 <= i && i < old(len(t.rows)) ==> t.rows[i] == old(t.rows[i]) @C02
+//@   ensures [columns-follow] t.nColumns == max(old(t.nColumns), len(row.cells)) && t.headerRow == old(t.headerRow) && row.cells === old(row.cells) @C02
+//@   ensures [errors-none-lost-none-duplicated] len(t.ErrorContainer.errors_) == old(len(t.ErrorContainer.errors_)) + errCount(old(row.ErrorContainer), old(heap[ErrorContainer.errors_])) + (cbErrN - old(cbErrN)) @C11
+//@   ensures [table-errors-kept] forall i int :: {old(t.ErrorContainer.errors_[i])} 0 <= i && i < old(len(t.ErrorContainer.errors_)) ==> t.ErrorContainer.errors_[i] == old(t.ErrorContainer.errors_[i]) @C11
+//@   ensures [row-errors-moved-in-order] old(row.ErrorContainer) != nil ==> forall k int :: {old(row.ErrorContainer.errors_[k])} 0 <= k && k < old(len(row.ErrorContainer.errors_)) ==> t.ErrorContainer.errors_[old(len(t.ErrorContainer.errors_)) + k] == old(row.ErrorContainer.errors_[k]) @C11
+//@   ensures [callback-errors-in-order] forall m int :: {cbErrLog[m]} old(cbErrN) <= m && m < cbErrN ==> t.ErrorContainer.errors_[old(len(t.ErrorContainer.errors_)) + errCount(old(row.ErrorContainer), old(heap[ErrorContainer.errors_])) + (m - old(cbErrN))] == cbErrLog[m] @C11
+//@   ensures [row-errors-now-go-to-table] row.ErrorContainer == t.ErrorContainer @C11
+//@   ensures [chains] tblProps(t) && colsOwn(t) && rowProps(row) && cellsOwn(row) && chainsStable(old(heap[valueProperty.chain]), old(heap[valueProperty.key]), old(heap[valueProperty.val]), heap[valueProperty.chain], heap[valueProperty.key], heap[valueProperty.val], old(alloc))
+//@   ensures [returns-table] result == mkiface(type[*ATable], box(t))
+//@   call AddErrorList before use nn_full(heap[error], es, len(es))
+//@   call AddErrorList before use forall k int :: {nn(heap[error], es, k)} nn_full(heap[error], es, k)
+//@   loop#1 invariant -1 <= rangeindex && rangeindex < len(row.cells) && row.cells === old(row.cells)
+//@   loop#1 invariant WF(t) && tblProps(t) && colsOwn(t) && rowProps(row) && cellsOwn(row)
+//@   loop#1 invariant len(t.rows) == old(len(t.rows)) + 1 && t.rows[len(t.rows)-1] == row && row.rowNum == len(t.rows) && row.inTable == t && row.ErrorContainer == t.ErrorContainer && t.ErrorContainer == old(t.ErrorContainer)
+//@   loop#1 invariant forall i int :: {t.rows[i]} {old(t.rows[i])} 0 <= i && i < old(len(t.rows)) ==> t.rows[i] == old(t.rows[i])
+//@   loop#1 invariant t.nColumns == max(old(t.nColumns), len(row.cells)) && t.headerRow == old(t.headerRow)
+//@   loop#1 invariant cbErrN >= old(cbErrN) && len(t.ErrorContainer.errors_) == old(len(t.ErrorContainer.errors_)) + errCount(old(row.ErrorContainer), old(heap[ErrorContainer.errors_])) + (cbErrN - old(cbErrN))
+//@   loop#1 invariant forall i int :: {old(t.ErrorContainer.errors_[i])} 0 <= i && i < old(len(t.ErrorContainer.errors_)) ==> t.ErrorContainer.errors_[i] == old(t.ErrorContainer.errors_[i])
+//@   loop#1 invariant old(row.ErrorContainer) != nil ==> forall k int :: {old(row.ErrorContainer.errors_[k])} 0 <= k && k < old(len(row.ErrorContainer.errors_)) ==> t.ErrorContainer.errors_[old(len(t.ErrorContainer.errors_)) + k] == old(row.ErrorContainer.errors_[k])
+//@   loop#1 invariant forall m int :: {cbErrLog[m]} old(cbErrN) <= m && m < cbErrN ==> t.ErrorContainer.errors_[old(len(t.ErrorContainer.errors_)) + errCount(old(row.ErrorContainer), old(heap[ErrorContainer.errors_])) + (m - old(cbErrN))] == cbErrLog[m]
+//@   loop#1 invariant chainsStable(old(heap[valueProperty.chain]), old(heap[valueProperty.key]), old(heap[valueProperty.val]), heap[valueProperty.chain], heap[valueProperty.key], heap[valueProperty.val], old(alloc)) && alloc >= old(alloc)
+//@   loop#1 invariant (t.ErrorContainer.errors_.arr == old(t.ErrorContainer.errors_.arr) && t.ErrorContainer.errors_.off == old(t.ErrorContainer.errors_.off) && t.ErrorContainer.errors_.cap == old(t.ErrorContainer.errors_.cap)) || fresh(t.ErrorContainer.errors_)
+//@   loop#1 invariant (t.rows.arr == old(t.rows.arr) && t.rows.off == old(t.rows.off) && t.rows.cap == old(t.rows.cap)) || fresh(t.rows)
+//@   loop#1 invariant (t.columns.arr == old(t.columns.arr) && t.columns.off == old(t.columns.off) && t.columns.cap == old(t.columns.cap)) || fresh(t.columns)
+//@   loop#1 decreases len(row.cells) - rangeindex
